@@ -19,7 +19,7 @@ pub fn strip_own_mark<'a>(enc: &str, bytes: &'a [u8]) -> &'a [u8] {
 }
 
 /// byte windows the documented sampling rule looks at (for classifying the known ascii finding only)
-fn sampled_windows(len: usize, s: &Sett) -> Vec<(usize, usize)> {
+pub fn sampled_windows(len: usize, s: &Sett) -> Vec<(usize, usize)> {
     let (mut steps, mut chunk) = (s.steps, s.chunk);
     if len <= chunk.saturating_mul(steps) {
         steps = 1;
@@ -189,6 +189,33 @@ impl DetectProp for C01 {
                     let mut s = Sett::default();
                     s.incl = vec![enc.to_string(), "utf-8".into(), "ascii".into()];
                     v.push(Case { bytes: b, sett: s, tag: format!("directed:large-multibyte-damaged-edge:{}:{}", enc, damage) });
+                }
+            }
+        }
+        // > 1 MB in a code page with unassigned byte values: one such byte inside the first 500,000 bytes, outside every
+        // sampled chunk – the only place it can be seen is the whole-prefix fit check (quick: 0xFF in iso-8859-7; thorough:
+        // every unassigned value of three pages, at varying offsets)
+        {
+            let pages: &[(&str, &str)] = if thorough { &[("iso-8859-7", "greek"), ("windows-1253", "greek"), ("windows-1255", "hebrew")] } else { &[("iso-8859-7", "greek")] };
+            let mut rng4 = Rng::new(9191);
+            for (page, name) in pages {
+                let base = TEXTS.iter().find(|(n, _)| n == name).map(|x| x.1).unwrap_or(TEXTS[0].1);
+                let unit = enc_bytes_lossy(&stretch(&mut rng4, base, 2000), page);
+                if unit.is_empty() {
+                    continue;
+                }
+                let holes: Vec<u8> = (0x80..=0xffu32).map(|b| b as u8).filter(|b| direct_decode(page, &[*b]).is_none()).collect();
+                let picks: Vec<u8> = if thorough { holes.clone() } else { holes.iter().cloned().filter(|b| *b == 0xff).collect() };
+                for (k, hole) in picks.iter().enumerate() {
+                    let len = 1_050_000 + 37 * k;
+                    let mut b: Vec<u8> = unit.iter().cycle().take(len).cloned().collect();
+                    let pos = [100_000usize, 3_000, 499_000, 250_123][k % 4];
+                    b[pos] = *hole;
+                    let mut s = Sett::default();
+                    if k % 2 == 1 {
+                        s.incl = vec![page.to_string(), "utf-8".into(), "ascii".into()];
+                    }
+                    v.push(Case { bytes: b, sett: s, tag: format!("nomodel:large-unassigned-byte-in-prefix:{}:{:02x}", page, hole) });
                 }
             }
         }
